@@ -262,6 +262,14 @@ def _alarm(signum, frame):
     raise UnitTimeout()
 
 
+# check-wide fail-fast: number of units of this run that already hold a replayed,
+# unlisted violation (shared with the forked workers).  Once VERIF_MAX_BAD_UNITS
+# (default 8) units have one, the units not yet started are skipped and counted:
+# the run exits 1 either way, and a defect that breaks every unit no longer turns
+# a two-minute check into half an hour.  Never reached on a tree that holds.
+_BAD_UNITS = mp.get_context("fork").Value("i", 0)
+
+
 def _run_unit(args):
     """Run one unit.  In the thorough tier a unit has a wall budget
     (VERIF_UNIT_BUDGET seconds): a unit that exceeds it is reported as undecided
@@ -269,6 +277,14 @@ def _run_unit(args):
     import signal
     fn, item = args
     t = time.time()
+    limit = int(os.environ.get("VERIF_MAX_BAD_UNITS", "8") or 0)
+    if limit and _BAD_UNITS.value >= limit:
+        r = new_unit(str(item)[:200])
+        r["skipped_unit_after_violations"] = 1
+        r["notes"].append("unit not run: %d units of this run already hold replayed, unlisted violations"
+                          % _BAD_UNITS.value)
+        r["wall_s"] = 0.0
+        return r
     budget = int(os.environ.get("VERIF_UNIT_BUDGET", "0") or 0)
     if budget:
         signal.signal(signal.SIGALRM, _alarm)
@@ -286,6 +302,9 @@ def _run_unit(args):
         if budget:
             signal.alarm(0)
     r["wall_s"] = time.time() - t
+    if any(c.get("reproduced") and c.get("key") not in _known_keys() for c in r.get("cex", [])):
+        with _BAD_UNITS.get_lock():
+            _BAD_UNITS.value += 1
     return r
 
 
@@ -413,6 +432,8 @@ class Check:
                                 sorted(self.units, key=lambda u: -u.get("wall_s", 0))[:8]],
             "extended_units_undecided_within_budget": sum(u.get("undecided_extended", 0) for u in self.units),
             "obligations_skipped_after_violation": sum(u.get("skipped_after_violation", 0) for u in self.units),
+            "units_not_run_after_violations_in_8_units": sum(u.get("skipped_unit_after_violations", 0)
+                                                             for u in self.units),
             "samples": samples,
             "trusted_base": self.trusted,
             "checker_cmd": "./check %s --tier %s" % (self.pid, self.tier),
